@@ -194,6 +194,10 @@ def classify(paths, base, root):
             rp = os.path.abspath(p)
         if rp == root or rp.startswith(root + os.sep):
             continue
+        # the system's temporary directory: libraries stage data there for an instant (dulwich
+        # builds packs in it); what counts is what is LEFT there after the request
+        if rp.startswith(os.path.join(base, "systmp") + os.sep) or rp == os.path.join(base, "systmp"):
+            continue
         if rp == base or rp.startswith(base + os.sep):
             return rp
         if any(rp == a or rp.startswith(a.rstrip("/") + "/") for a in ALLOW_PREFIXES):
@@ -213,9 +217,21 @@ def run_one(tmpl, case, method, frontend, leak_marker=b"SECRET outside the root"
     target = render(case, abs_path)
     rec["target"] = target.replace(base, "<BASE>")
     rec["netpath"] = target.startswith("//")     # as an href: a network-path reference
+    import tempfile
+    systmp = os.path.join(base, "systmp")
+    os.makedirs(systmp, exist_ok=True)
     try:
         before_out = {k: v for k, v in tree_state(base, skip_git=False).items() if not k.startswith("./data") and not k.startswith("data")}
         before_in = tree_state(root)
+        # the system's temporary directory is a directory next to the root for the time of the
+        # request: user data a request leaves there is user data outside the root
+        old_tmp = tempfile.tempdir
+        tempfile.tempdir = systmp
+        if case.get("locked"):
+            # another writer (or a crashed one) holds the collection's index lock
+            lk = os.path.join(root, "cal", ".git", "index.lock")
+            if os.path.isdir(os.path.dirname(lk)):
+                open(lk, "wb").close()
         w = World(frontend=frontend, prefix="/", root=root, autocreate=False)
         try:
             with fsmon.Monitor() as mon:
@@ -233,6 +249,7 @@ def run_one(tmpl, case, method, frontend, leak_marker=b"SECRET outside the root"
                     resp = send(w, method, target)
         finally:
             w.stop()
+            tempfile.tempdir = old_tmp
         bad = []
         for (tid, ev, paths, wr) in mon.events:
             x = classify(paths, os.path.realpath(base), os.path.realpath(root))
@@ -241,7 +258,8 @@ def run_one(tmpl, case, method, frontend, leak_marker=b"SECRET outside the root"
         after_out = {k: v for k, v in tree_state(base, skip_git=False).items() if not k.startswith("./data") and not k.startswith("data")}
         rec["outside_events"] = len(bad)
         rec["outside_sample"] = bad[:4]
-        rec["outside_changed"] = before_out != after_out
+        rec["outside_changed"] = before_out != after_out     # (includes anything left in systmp)
+        rec["locked"] = bool(case.get("locked"))
         rec["root_removed"] = not os.path.isdir(root)
         rec["leak"] = leak_marker in resp.body
         after_in = tree_state(root) if os.path.isdir(root) else {}
